@@ -207,6 +207,7 @@ type CutResult struct {
 	Best, Fin  string
 	Readable   bool
 	Resumed    NodeObs
+	Sibling    bool // the orphan scenario (a sibling delivered first) was exercised at this cut
 	ExtraSet   bool // the resumed node stored a block the uninterrupted node never stored (the model has no data for it)
 	Findings   []Finding
 }
@@ -305,6 +306,55 @@ func (r *Run) EvalCut(k int) *CutResult {
 	}
 	if len(diverges) > 0 {
 		bad("resume-diverges", strings.Join(diverges, "; "))
+	}
+	// (4) orphans: when the cut left trie nodes of the interrupted block behind (block bulk not written), deliver first a
+	// DIFFERENT block of the same height that the image does not hold (it is given the same (number, conflicts) version and
+	// overwrites / ignores the leftovers), then the interrupted block: every block must read back exactly as before
+	if pos.Delivery < len(r.Deliveries) && pos.Prev != "boundary" && (pos.Next == "state" || pos.Next == "index" || pos.Next == "block-bulk") {
+		cur := r.Deliveries[pos.Delivery].Block
+		var sib *block.Block
+		for _, b := range r.Blocks {
+			if b == nil || b.Header().Number() != cur.Header().Number() || b.Header().ID() == cur.Header().ID() {
+				continue
+			}
+			hasKey := func(id thor.Bytes32) bool {
+				_, ok := image[string(append(append([]byte{2}, "chain.hdr"...), id[:]...))]
+				return ok
+			}
+			if !hasKey(b.Header().ID()) && hasKey(b.Header().ParentID()) {
+				sib = b
+				break
+			}
+		}
+		if sib != nil {
+			res.Sibling = true
+			eng2 := FromLog(r.U.Eng.Log(0, r.U.Base+k))
+			if n2, err := r.W.Reopen(eng2, r.U.Genesis, false); err == nil {
+				stored := func() {
+					for key := range n2.Eng.Dump() {
+						ki := ParseKey([]byte(key))
+						if ki.Space != SpSummary {
+							continue
+						}
+						id := thor.BytesToBytes32([]byte(ki.ID))
+						v, err := n2.ReadBlock(id)
+						if err != nil {
+							bad("orphans-harm", fmt.Sprintf("after a sibling took the leftovers' version, block #%d: %v", block.Number(id), err))
+						} else if ref := r.Views[id]; ref != nil && *ref != *v {
+							bad("orphans-harm", fmt.Sprintf("after a sibling took the leftovers' version, block #%d reads differently: %+v vs %+v", block.Number(id), *v, *ref))
+						}
+					}
+				}
+				if cls, err := n2.Import(sib); err == nil && cls == ImpOK {
+					stored()
+					n2.Import(cur)
+					stored()
+				}
+				n2.Close()
+			} else {
+				eng2.Close()
+			}
+		}
 	}
 	return res
 }
